@@ -361,8 +361,11 @@ func runC09(c *Ctx) {
 	c.L.Floor("C09.callback-unlocked", 1)
 	c.L.Floor("C09.no-stale-after-relock", 1)
 	c.L.Floor("C09.refusal-pure", 1)
-	c09Config(c)
-	c09ConfigExact(c)
+	if !c09ConfigExact(c) {
+		// what the eviction loop relies on (limits >= 1, element limit <= MaxSize)
+		// follows from the exact rule; the relational rule is its fall-back
+		c09Config(c)
+	}
 	c09Bounds(c)
 	c.L.Floor("C09.set-result", 1)
 	c.L.Floor("C09.get-counts", 2)
